@@ -35,6 +35,11 @@ type ElemPred struct {
 	// element passes when F is false for it. Call is the library call, Pred is F.
 	Pred *ssa.Function
 	Call *ssa.Call
+
+	// FlagStep: values of the loop-carried booleans on entry to the iteration, and of the merges
+	// passed on the way
+	env  map[*ssa.Phi]bool
+	seen map[*ssa.Phi]evalVal
 }
 
 // elemPredicateCall finds, in fn, the library call that applies a predicate function to every
@@ -488,6 +493,12 @@ func (ep *ElemPred) eval(v ssa.Value, c int64, prev, cur *ssa.BasicBlock, depth 
 			return evalVal{n: truncTo(-a.n, x.Type())}, !a.isBool
 		}
 	case *ssa.Phi:
+		if b, ok := ep.env[x]; ok {
+			return evalVal{isBool: true, b: b}, true
+		}
+		if val, ok := ep.seen[x]; ok {
+			return val, true
+		}
 		// the operand of the edge actually taken
 		if x.Block() == cur {
 			for i, pb := range cur.Preds {
@@ -604,4 +615,85 @@ func (ep *ElemPred) Equals(want func(c int64) bool, extra []int64) (equal bool, 
 		}
 	}
 	return true, true, 0
+}
+
+// FlagStep runs one iteration of the loop with element value c and the given values of
+// loop-carried booleans (merges at the loop header): the values they carry into the next
+// iteration. outcome: 1 the loop goes on, 0 the element is rejected (error return, panic),
+// -1 undecided.
+func (ep *ElemPred) FlagStep(c int64, env map[*ssa.Phi]bool) (map[*ssa.Phi]bool, int) {
+	l := ep.Loop
+	ep.env, ep.seen = env, map[*ssa.Phi]evalVal{}
+	defer func() { ep.env, ep.seen = nil, nil }()
+	prev, cur := l.Header, l.Body
+	set := l.blocks()
+	for steps := 0; steps < 200; steps++ {
+		if cur == l.Header {
+			out := map[*ssa.Phi]bool{}
+			for ph := range env {
+				k := -1
+				for i, pb := range l.Header.Preds {
+					if pb == prev {
+						k = i
+					}
+				}
+				if k < 0 {
+					return nil, -1
+				}
+				v, ok := ep.eval(ph.Edges[k], c, nil, nil, 0)
+				if !ok || !v.isBool {
+					return nil, -1
+				}
+				out[ph] = v.b
+			}
+			return out, 1
+		}
+		if !set[cur] && !l.inLoop(cur) {
+			return nil, -1
+		}
+		// the merges at the top of this block, for the edge taken
+		for _, in := range cur.Instrs {
+			ph, ok := in.(*ssa.Phi)
+			if !ok {
+				break
+			}
+			for i, pb := range cur.Preds {
+				if pb == prev && i < len(ph.Edges) {
+					if v, ok := ep.eval(ph.Edges[i], c, prev, cur, 0); ok {
+						ep.seen[ph] = v
+					}
+				}
+			}
+		}
+		for _, in := range cur.Instrs {
+			if ep.p.callNoReturnCached(in) {
+				return nil, 0
+			}
+		}
+		switch x := cur.Instrs[len(cur.Instrs)-1].(type) {
+		case *ssa.Return:
+			rs := resultsOf(x)
+			if len(rs) > 0 && ep.p.definitelyNonNil(rs[len(rs)-1], 0) {
+				return nil, 0
+			}
+			return nil, -1
+		case *ssa.Panic:
+			return nil, 0
+		case *ssa.Jump:
+			prev, cur = cur, cur.Succs[0]
+		case *ssa.If:
+			v, ok := ep.eval(x.Cond, c, prev, cur, 0)
+			if !ok || !v.isBool {
+				return nil, -1
+			}
+			if v.b {
+				prev, cur = cur, cur.Succs[0]
+			} else {
+				prev, cur = cur, cur.Succs[1]
+			}
+		default:
+			return nil, -1
+		}
+	}
+	return nil, -1
 }
